@@ -124,6 +124,19 @@ def history_package(rng, gated: set) -> dict:
         "class Far(_PrivBase):\n    def far_own(self, f: Fraction, p: Path) -> None: ...\n\n    def same_last_segment(self, a: SocketHandler, b: SimpleHandler, c: QueueHandler) -> None: ...\n\n\n"
         "def twice(a: Literal[7] | None, b: Literal[7] | None, *args: Literal[7] | None) -> SubOne: ...\n"
     )
+    # a private base that reaches its subclasses through a package that re-exports it (relative and absolute import of the
+    # package, the relative user generated first), the base's name also used in an expression
+    files["src/pk/core/__init__.py"] = "from ._base import _Base\nfrom ._base import _Other as _OtherAlias\n"
+    files["src/pk/core/_base.py"] = (
+        "class _Base:\n    def describe(self, depth: int = 0) -> str: ...\n\n    @property\n    def label(self) -> str: ...\n\n\n"
+        "class _Other:\n    def other_inherited(self) -> int: ...\n"
+    )
+    files["src/pk/alpha_user.py"] = "from .core import _Base\nfrom .core import _OtherAlias\n\n\nclass RelUser(_Base):\n    def own_rel(self) -> None: ...\n\n\nclass RelOther(_OtherAlias):\n    pass\n"
+    files["src/pk/beta_user.py"] = (
+        "from pk.core import _Base, _OtherAlias\n\n\nclass AbsUser(_Base):\n    def own_abs(self) -> None: ...\n\n\nclass AbsOther(_OtherAlias):\n    pass\n\n\n"
+        "def make_user() -> AbsUser:\n    base = _Base()\n    other = _OtherAlias()\n    return AbsUser()\n"
+    )
+    files["src/pk/gamma_user.py"] = "from pk.core._base import _Base\n\n\nclass DirectUser(_Base):\n    pass\n"
     return files
 
 
